@@ -10,6 +10,8 @@ package main
 // else with r.Fail.
 
 import (
+	tokenstypes "github.com/KiraCore/sekai/x/tokens/types"
+	tokenskeeper "github.com/KiraCore/sekai/x/tokens/keeper"
 	"errors"
 	"fmt"
 	"strings"
@@ -828,6 +830,50 @@ func (ep *l2Ep) kConvert(u int, n1, n2, lpDen string, amt int64) (string, sdkmat
 	return out, res
 }
 
+// lpTakeover: an account that holds PermUpsertTokenInfo (it may REGISTER tokens) tries to make itself the owner of the
+// auto-registered, owner-less LP token of a launched dApp and then to issue LP tokens to itself through layer2 (free for a
+// token's owner). Both must be refused; the model is not told - every dApp, bond and balance must look as before.
+func (ep *l2Ep) lpTakeover(u int, lpDen string) {
+	ctx := ep.cctx()
+	app := ep.w.app
+	if app.TokensKeeper.GetTokenInfo(ctx, lpDen) == nil {
+		return // not launched yet: registering a NEW token is what the permission is for
+	}
+	gk := app.CustomGovKeeper
+	a, ok := gk.GetNetworkActorByAddress(ctx, ep.w.addrs[u])
+	if !ok {
+		a = govtypes.NewDefaultActor(ep.w.addrs[u])
+	}
+	if !a.Permissions.IsWhitelisted(govtypes.PermUpsertTokenInfo) {
+		if err := gk.AddWhitelistPermission(ctx, a, govtypes.PermUpsertTokenInfo); err != nil {
+			return
+		}
+	}
+	info := app.TokensKeeper.GetTokenInfo(ctx, lpDen)
+	tms := tokenskeeper.NewMsgServerImpl(app.TokensKeeper, gk)
+	errUp := withCache(ctx, func(c sdk.Context) error {
+		_, e := tms.UpsertTokenInfo(sdk.WrapSDKContext(c), tokenstypes.NewMsgUpsertTokenInfo(ep.w.addrs[u], lpDen, "adr20", sdk.OneDec(), info.FeeEnabled, info.Supply, info.SupplyCap,
+			info.StakeCap, info.StakeMin, info.StakeEnabled, info.Inactive, info.Symbol, info.Name, "", info.Decimals, "mine", "", "", 0, sdk.ZeroInt(), ep.w.addrs[u].String(), false, "", ""))
+		return e
+	})
+	errIssue := withCache(ctx, func(c sdk.Context) error {
+		_, e := ep.ms.MintIssueTx(sdk.WrapSDKContext(c), &l2types.MsgMintIssueTx{Sender: ep.w.addrs[u].String(), Denom: lpDen, Amount: sdk.NewInt(1_000_000), Receiver: ep.w.addrs[u].String()})
+		return e
+	})
+	ep.r.Count(fmt.Sprintf("lp-takeover:upsert-refused=%v:issue-refused=%v", errUp != nil, errIssue != nil))
+	if errUp != nil {
+		ep.r.Count("lp-takeover:upsert-error:" + strings.SplitN(errUp.Error(), "[", 2)[0])
+	}
+	ep.r.Case(fmt.Sprintf("lp-takeover/%d/%s", u, lpDen), true)
+	if errUp == nil {
+		ep.r.Fail("C20/lp-token/owner-taken-over", fmt.Sprintf("account %d made itself the owner of the owner-less LP token %s with MsgUpsertTokenInfo", u, lpDen), ep.replay())
+	}
+	if errIssue == nil {
+		ep.r.Fail("C20/lp-token/issued-outside-the-pool", fmt.Sprintf("account %d issued 1000000 %s to itself through layer2 MsgMintIssueTx", u, lpDen), ep.replay())
+	}
+	ep.obs()
+}
+
 func (ep *l2Ep) lpBal(u int, den string) sdkmath.Int {
 	return ep.w.app.BankKeeper.GetBalance(ep.ctx, ep.w.addrs[u], den).Amount
 }
@@ -1123,6 +1169,8 @@ func c20LpEpisode(r *Rec, n int) {
 			ep.kConvert(u, name, n2, lp, amt)
 		case x < 90:
 			ep.lpMsgRoundTrip(u, name, lp, 1+r.Rng.Int63n(50))
+		case x < 93:
+			ep.lpTakeover(3, lp)
 		case x < 95:
 			ep.bond(u, name, "ukex", 1+r.Rng.Int63n(l2unit)) // bonding after launch is allowed by the code
 		default:
